@@ -397,7 +397,12 @@ class _rewrite_captured_vars(ast.NodeTransformer):
                 value = ast.Constant(value=base)
 
         # Now, if it comes back a constant, can we do a lookup to resolve it?
-        if isinstance(value, ast.Constant) and hasattr(value.value, node.attr):
+        if (
+            isinstance(value, ast.Constant)
+            # (a literal written in the lambda itself is not a captured value)
+            and not isinstance(node.value, ast.Constant)
+            and hasattr(value.value, node.attr)
+        ):
             new_value = getattr(value.value, node.attr)
             # When 3.10 is not supported, replace with EnumType
             if isinstance(value.value, Enum.__class__) and isinstance(new_value, Enum):
